@@ -54,7 +54,7 @@ def make_arg(I, ctx, name, spec, shape, wf):
         return z3.Bool(f'{p}{name}')
     if spec.kind == 'const':
         return spec.value
-    if spec.kind in ('cards', 'opt_cards', 'opt_cards_or_int', 'status_or_cards'):
+    if spec.kind in ('cards', 'opt_cards', 'opt_cards_or_int', 'status_or_cards', 'cardslike', 'cardslike_or_int'):
         import importlib
         ut = importlib.import_module('pokerkit.utilities')
         b = Builder(I, p, {'Card': ut.Card, 'Rank': ut.Rank, 'Suit': ut.Suit})
@@ -65,6 +65,17 @@ def make_arg(I, ctx, name, spec, shape, wf):
         if spec.kind == 'opt_cards':
             none = z3.Bool(f'{p}{name}?none')
             return Choice(((none, None), (z3.Not(none), cards)))
+        if spec.kind in ('cardslike', 'cardslike_or_int'):
+            # every documented way of naming cards in an operation: None | (a count) | a tuple of cards | ONE bare Card object
+            tag = z3.Int(f'{p}{name}?tag')          # 0 None, 1 int, 2 cards, 3 a bare Card
+            lo_ok = [0, 2, 3] if spec.kind == 'cardslike' else [0, 1, 2, 3]
+            wf.append(z3.Or(*[tag == k for k in lo_ok]))
+            one = b.card(name + '!bare')
+            wf.extend(b.wf)
+            alts = [(tag == 0, None), (tag == 2, cards), (tag == 3, one)]
+            if spec.kind == 'cardslike_or_int':
+                alts.insert(1, (tag == 1, z3.Int(f'{p}{name}#int')))
+            return Choice(tuple(alts))
         if spec.kind == 'opt_cards_or_int':
             tag = z3.Int(f'{p}{name}?tag')          # 0 None, 1 int, 2 cards
             wf.append(z3.And(tag >= 0, tag <= 2))
